@@ -61,4 +61,99 @@ theorem renderDom_factor (cfg : Cfg) (d : Deco) (w : Nat) (useDoc : Bool) (agent
               cases renderTree cfg d w tree with
               | ok ls => rfl
               | error e => cases e <;> rfl
+
+/-! ## what a `.lines` outcome means -/
+
+theorem domTree_tableOk (dec useDoc : Bool) (agentCss userCss : Option (List Char)) (ci : CharInfo) (depth : Nat) (dom : Node) (tree : RNode)
+    (h : domTree dec useDoc agentCss userCss ci depth dom = .ok tree) : tableOk tree = true := by
+  unfold domTree at h
+  split at h
+  · simp at h
+  · split at h
+    · simp at h
+    · split at h
+      · simp at h
+      · unfold buildTree at h
+        split at h
+        · simp at h
+        · simp at h
+        · split at h
+          · simp at h
+          · rename_i hok
+            injection h with h; subst h
+            simpa using hok
+
+theorem addTo_error (base : List Css.Rule) (css : Option (List Char)) (o : Outcome) (h : addTo base css = .error o) : ∀ ls, o ≠ .lines ls := by
+  unfold addTo at h
+  split at h
+  · simp at h
+  · split at h
+    · simp at h
+    · injection h with h; subst h; intro ls hh; cases hh
+    · injection h with h; subst h; intro ls hh; cases hh
+
+theorem docRulesOf_error (useDoc : Bool) (depth : Nat) (dom : Node) (o : Outcome) (h : docRulesOf useDoc depth dom = .error o) :
+    ∀ ls, o ≠ .lines ls := by
+  unfold docRulesOf at h
+  split at h
+  · simp at h
+  · have key : ∀ (l : List (List Ch)) (acc : Except Outcome (List Css.Rule)), (∀ o', acc = .error o' → ∀ ls, o' ≠ .lines ls) →
+        ∀ o', l.foldl (fun acc t => match acc with
+          | .error o => .error o
+          | .ok rs => match Css.doAddCss (t.map fun c => Char.ofNat c.cp) with
+            | .ok r => .ok (rs ++ r)
+            | .err => .ok rs
+            | .hang => .error (.hang "css parser (document)")) acc = .error o' → ∀ ls, o' ≠ .lines ls := by
+      intro l
+      induction l with
+      | nil => intro acc hacc o' h'; exact hacc o' h'
+      | cons t r ih =>
+        intro acc hacc o' h'
+        simp only [List.foldl_cons] at h'
+        refine ih _ ?_ o' h'
+        intro o'' ho''
+        cases acc with
+        | error e => simp only at ho''; exact hacc _ (by rw [← ho''])
+        | ok rs =>
+          simp only at ho''
+          split at ho''
+          · simp at ho''
+          · simp at ho''
+          · injection ho'' with ho''; subst ho''; intro ls hh; cases hh
+    exact key _ _ (by intro o' h'; simp at h') o h
+
+
+/-- **a `.lines` outcome of the pipeline is a rendering of the tree the front end built**, and that tree passed `tableOk` -/
+theorem renderDom_lines (cfg : Cfg) (d : Deco) (w : Nat) (useDoc : Bool) (agentCss userCss : Option (List Char))
+    (ci : CharInfo) (depth : Nat) (dom : Node) (ls : List RLine)
+    (h : renderDom cfg d w useDoc agentCss userCss ci depth dom = .lines ls) :
+    ∃ tree, domTree cfg.decorate useDoc agentCss userCss ci depth dom = .ok tree ∧ tableOk tree = true ∧ renderTree cfg d w tree = .ok ls := by
+  rw [renderDom_factor] at h
+  cases hd : domTree cfg.decorate useDoc agentCss userCss ci depth dom with
+  | error o =>
+    rw [hd] at h; simp only at h; subst h
+    exfalso
+    unfold domTree at hd
+    split at hd
+    · rename_i o1 h1; injection hd with hd; subst hd; exact addTo_error _ _ _ h1 ls rfl
+    · split at hd
+      · rename_i o2 h2; injection hd with hd; subst hd; exact addTo_error _ _ _ h2 ls rfl
+      · split at hd
+        · rename_i o3 h3; injection hd with hd; subst hd; exact docRulesOf_error _ _ _ _ h3 ls rfl
+        · unfold buildTree at hd
+          split at hd
+          · simp at hd
+          · simp at hd
+          · split at hd <;> simp at hd
+  | ok tree =>
+    rw [hd] at h
+    simp only at h
+    cases hr : renderTree cfg d w tree with
+    | error e => rw [hr] at h; cases e <;> simp [treeOutcome] at h
+    | ok ls' =>
+      rw [hr] at h
+      simp only [treeOutcome] at h
+      injection h with h; subst h
+      exact ⟨tree, rfl, domTree_tableOk _ _ _ _ _ _ _ tree hd, hr⟩
+
 end H2T
